@@ -2,9 +2,9 @@
 from cvxopt.modeling import variable, op
 x = variable(1, 'x'); y = variable(1, 'y')
 lp = op(x + y, [1e100*x + y <= 1e-100, x >= -1, y >= -1])
-lp.tofile('/tmp/wt5h/C14/hunt/tmp/r1.mps')
-print([l.rstrip() for l in open('/tmp/wt5h/C14/hunt/tmp/r1.mps') if '+100' in l or '-100' in l])
-lp2 = op(); lp2.fromfile('/tmp/wt5h/C14/hunt/tmp/r1.mps')
+lp.tofile('/var/tmp/fz/r1.mps')
+print([l.rstrip() for l in open('/var/tmp/fz/r1.mps') if '+100' in l or '-100' in l])
+lp2 = op(); lp2.fromfile('/var/tmp/fz/r1.mps')
 c = lp2.inequalities()[0]
 print('coefficient of x read back:', [m[0] for v, m in c._f._linear._coeff.items() if v.name == 'x_0'][0], '(expected 1e+100)')
 print('rhs read back:', -c._f._constant[0], '(expected 1e-100)')
